@@ -76,6 +76,26 @@ last index `a = n-1` of the Python table untouched (zero) -/
 def horizStep (AB : K) (n : Nat) (old oldU : K) (a : Nat) : K :=
   if a + 1 < n then oldU + AB * old else Num.nat 0
 
+/-- Head-Gordon–Pople horizontal recursion on all three axes: from `h0[ax][ay][az]` (a table with
+`n` entries per axis) to `H[bz][by][bx][ax][ay][az]` for `b_i ≤ lb`, where on each axis
+`H[b+1][a] = H[b][a+1] + AB·H[b][a]` (`AB` = component of `A - B`).  The x pass runs with
+`by = bz = 0`, the y pass for every `bx`, the z pass for every `bx, by`, as in the code.
+Materialised for `ax ≤ la` after the x pass and `ay ≤ la` after the y pass: this is what a final
+selection with `a_i ≤ la` reads. -/
+def horiz3 (AB : Nat → K) (n lb la : Nat) (h0 : Tab3 K) : Tab3 (Tab3 K) :=
+  -- x: [bx][ax][ay][az]
+  let hx : Tab (Tab3 K) := rows1 (lb + 1) h0 fun b old =>
+    tab3 (n - (b + 1)) n n fun ax ay az =>
+      horizStep (AB 0) n (old.get3 ax ay az) (old.get3 (ax+1) ay az) ax
+  -- y: [by][bx][ax][ay][az]
+  let hy : Tab (Tab (Tab3 K)) := rows1 (lb + 1) (tab (lb + 1) fun bx => hx.get bx) fun b old =>
+    tab (lb + 1) fun bx => tab3 (la + 1) (n - (b + 1)) n fun ax ay az =>
+      horizStep (AB 1) n ((old.get bx).get3 ax ay az) ((old.get bx).get3 ax (ay+1) az) ay
+  -- z: [bz][by][bx][ax][ay][az]
+  rows1 (lb + 1) (tab (lb + 1) fun by' => tab (lb + 1) fun bx => (hy.get by').get bx) fun b old =>
+    tab2 (lb + 1) (lb + 1) fun by' bx => tab3 (la + 1) (la + 1) (n - (b + 1)) fun ax ay az =>
+      horizStep (AB 2) n ((old.get2 by' bx).get3 ax ay az) ((old.get2 by' bx).get3 ax ay (az+1)) az
+
 end
 
 section
@@ -109,26 +129,16 @@ def oneElecBlockOrdered (boys : K → Nat → Tab K) (s t : Shell K) (Cpt : Nat 
         sumN s.nprim fun ka => sumN t.nprim fun kb =>
           (prim.get2 ka kb).get4 az ay ax 0 * ra.get ka * s.coef! ka ma * (rb.get kb * t.coef! kb mb)
   let AB : Nat → K := fun i => s.ctr i - t.ctr i
-  -- horizontal recursion for every (ma, mb); H[bx][by][bz][ax][ay][az]
-  let hz : Tab (Tab (Tab (Tab (Tab (Tab (Tab (Tab K))))))) := tab2 s.nseg t.nseg fun ma mb =>
+  -- horizontal recursion for every (ma, mb); outside the part of the contracted table that the
+  -- vertical recursion fills correctly (ax + ay + az < mMax) the entries are never read: 0 here
+  let hz : Tab (Tab (Tab3 (Tab3 K))) := tab2 s.nseg t.nseg fun ma mb =>
     let h0 : Tab3 K := tab3 mMax mMax mMax fun ax ay az =>
       if ax + ay + az < mMax then ((cont.get az).get ay |>.get ax).get2 ma mb else Num.nat 0
-    -- x: [bx][ax][ay][az]
-    let hx : Tab (Tab3 K) := rows1 (lb + 1) h0 fun b old =>
-      tab3 (mMax - (b + 1)) mMax mMax fun ax ay az =>
-        horizStep (AB 0) mMax (old.get3 ax ay az) (old.get3 (ax+1) ay az) ax
-    -- y: [by][bx][ax][ay][az]   (ax ≤ la suffices from here on)
-    let hy : Tab (Tab (Tab3 K)) := rows1 (lb + 1) (tab (lb + 1) fun bx => hx.get bx) fun b old =>
-      tab (lb + 1) fun bx => tab3 (la + 1) (mMax - (b + 1)) mMax fun ax ay az =>
-        horizStep (AB 1) mMax ((old.get bx).get3 ax ay az) ((old.get bx).get3 ax (ay+1) az) ay
-    -- z: [bz][by][bx][ax][ay][az]
-    rows1 (lb + 1) (tab (lb + 1) fun by' => tab (lb + 1) fun bx => (hy.get by').get bx) fun b old =>
-      tab2 (lb + 1) (lb + 1) fun by' bx => tab3 (la + 1) (la + 1) (mMax - (b + 1)) fun ax ay az =>
-        horizStep (AB 2) mMax ((old.get2 by' bx).get3 ax ay az) ((old.get2 by' bx).get3 ax ay (az+1)) az
+    horiz3 AB mMax lb la h0
   blockTab s t fun ma ca mb cb =>
     let a := s.comp! ca
     let b := t.comp! cb
-    ((((hz.get2 ma mb).get b.2.2).get2 b.2.1 b.1).get3 a.1 a.2.1 a.2.2) * normAng a * normAng b
+    ((hz.get2 ma mb).get3 b.2.2 b.2.1 b.1).get3 a.1 a.2.1 a.2.2 * normAng a * normAng b
 
 /-- `PointChargeIntegral.construct_array_contraction` for one point charge `q` at `C`:
 the shells are exchanged when `l_a < l_b` and the result transposed back. -/
